@@ -52,6 +52,12 @@ void zherk_(char const& uplo, char const& t, INT const& n, INT const& k, double 
   ++r_calls; r_which = 13; r_ta = uplo; r_tb = t; r_n = n; r_k = k; r_za = A; r_lda = lda; r_zc = C; r_ldc = ldc; r_alpha = alpha; r_beta = beta; }
 void zgemm_(char const& ta, char const& tb, INT const& m, INT const& n, INT const& k, std::complex<double> const& alpha, std::complex<double> const* A, INT const& lda, std::complex<double> const* B, INT const& ldb, std::complex<double> const& beta, std::complex<double> const* C, INT const& ldc) {
   ++r_calls; r_which = 14; r_ta = ta; r_tb = tb; r_m = m; r_n = n; r_k = k; r_lda = lda; r_ldb = ldb; r_ldc = ldc; r_za = A; r_zb = B; r_zc = const_cast<std::complex<double>*>(C); r_alpha = alpha.real(); r_beta = beta.real(); r_ai = alpha.imag(); r_bi = beta.imag(); }
+void zgemv_(char const& t, INT const& m, INT const& n, std::complex<double> const& alpha, std::complex<double> const* A, INT const& lda, std::complex<double> const* X, INT const& incx, std::complex<double> const& beta, std::complex<double>* Y, INT const& incy) {
+  ++r_calls; r_which = 15; r_ta = t; r_m = m; r_n = n; r_lda = lda; r_za = A; r_zb = X; r_incx = incx; r_zc = Y; r_incy = incy; r_alpha = alpha.real(); r_ai = alpha.imag(); r_beta = beta.real(); r_bi = beta.imag(); }
+Complex_double zdotc_(INT const& n, std::complex<double> const* x, INT const& incx, std::complex<double> const* y, INT const& incy) {
+  ++r_calls; r_which = 16; r_n = n; r_za = x; r_incx = incx; r_zb = y; r_incy = incy; Complex_double r; r.real = 7.0; r.imag = 8.0; return r; }
+void ztrsm_(char const& side, char const& uplo, char const& t, char const& diag, INT const& m, INT const& n, std::complex<double> const& alpha, std::complex<double> const* A, INT const& lda, std::complex<double> const* B, INT const& ldb) {
+  ++r_calls; r_which = 17; r_side = side; r_ta = uplo; r_tb = t; r_diag = diag; r_m = m; r_n = n; r_alpha = alpha.real(); r_ai = alpha.imag(); r_za = A; r_lda = lda; r_zc = const_cast<std::complex<double>*>(B); r_ldb = ldb; }
 INT idamax_(INT const& n, double const* x, INT const& incx) { ++r_calls; r_which = 10; r_n = n; r_a = x; r_incx = incx; return 2; }   // 1-based position 2
 }
 static auto mk2(double* p, L s0, L s1, L n0, L n1) {
@@ -334,3 +340,115 @@ template<int LAYOUT, int SA, int SB> static void t_zgemm() {
 #define ZG(LY, SA, SB) VF_HARNESS(zgemm_s##SA##SB##_l##LY) { t_zgemm<LY, SA, SB>(); }
 #define ZG8(SA, SB) ZG(0, SA, SB) ZG(1, SA, SB) ZG(2, SA, SB) ZG(3, SA, SB) ZG(4, SA, SB) ZG(5, SA, SB) ZG(6, SA, SB) ZG(7, SA, SB)
 ZG8(0, 0) ZG8(0, 1) ZG8(1, 0) ZG8(1, 1)
+
+// gemv on complex<double>: y = alpha*A*x + beta*y with A = a or J(a) (conjugated view), a row- or column-major with padding
+template<int SA> static void t_zgemv() {
+  L M = vf_range(1, NB); L N = vf_range(1, NB);
+  L as0, as1; mat_layout(M, N, as0, as1);
+  L sx = vf_range(1, 3); L sy = vf_range(1, 3); L oa = vf_range(0, 3); L ox = vf_range(0, 3); L oy = vf_range(0, 3);
+  auto a = mkz(g_za + oa, as0, as1, M, N);
+  multi::subarray<std::complex<double>, 1> x(multi::layout_t<1>(multi::layout_t<0>{}, sx, 0, sx * N), g_zb + ox);
+  multi::subarray<std::complex<double>, 1> y(multi::layout_t<1>(multi::layout_t<0>{}, sy, 0, sy * M), g_zc + oy);
+  std::complex<double> const alpha{2.0, 0.5}; std::complex<double> const beta{3.0, 0.25};
+  bool rejected = false;
+  try { if constexpr(SA == 0) { multi::blas::gemv(alpha, a, x, beta, y); } else { multi::blas::gemv(alpha, multi::blas::J(a), x, beta, y); } } catch(...) { rejected = true; }
+  if(!rejected) {
+    vf_assert(r_calls == 1 && r_which == 15, "exactly one zgemv call");
+    vf_assert(r_ta == 'N' || r_ta == 'T' || r_ta == 'C', "transposition flag is valid");
+    vf_assert(r_lda >= maxl(1, r_m), "lda satisfies the BLAS precondition");
+    vf_assert(r_incx == sx && r_incy == sy && r_zb == g_zb + ox && r_zc == g_zc + oy, "vector arguments denote x and y");
+    vf_assert(r_alpha == 2.0 && r_ai == 0.5 && r_beta == 3.0 && r_bi == 0.25, "alpha and beta are passed unchanged");
+    L i = vf_range(0, NB - 1); L j = vf_range(0, NB - 1); vf_assume(i < M && j < N);
+    L rows = r_ta == 'N' ? r_m : r_n; L cols = r_ta == 'N' ? r_n : r_m;
+    vf_assert(rows == M && cols == N, "op(A) has the logical shape of A");
+    vf_assert((r_za - g_za) + zaddr(r_ta, r_lda, i, j) == oa + i * as0 + j * as1, "op(A)(i,j) denotes the element A(i,j) is stored in, for every index pair");
+    vf_assert((r_ta == 'C') == (SA == 1), "the flag conjugates exactly when the view does");
+    vf_reach("zgemv accepted");
+  }
+}
+VF_HARNESS(zgemv_s0) { t_zgemv<0>(); }
+VF_HARNESS(zgemv_s1) { t_zgemv<1>(); }
+
+// dot on complex<double>: dot(x, y) = sum x_i y_i (dotu; realised through zgemv('N', 1, n, ...)), dot(x, C(y)) = sum x_i conj(y_i), dot(C(x), y) = sum conj(x_i) y_i;
+// zdotc(n, X, incX, Y, incY) = sum conj(X_i) Y_i, so the conjugated operand must be passed FIRST.
+template<int SX, int SY> static void t_zdot() {
+  L n = vf_range(0, 4); L sx = vf_range(1, 3); L sy = vf_range(1, 3); L ox = vf_range(0, 3); L oy = vf_range(0, 3);
+  multi::subarray<std::complex<double>, 1> x(multi::layout_t<1>(multi::layout_t<0>{}, sx, 0, sx * n), g_za + ox);
+  multi::subarray<std::complex<double>, 1> y(multi::layout_t<1>(multi::layout_t<0>{}, sy, 0, sy * n), g_zb + oy);
+  std::complex<double> res{-1.0, -1.0};
+  bool rejected = false;
+  try { if constexpr(SX == 0 && SY == 0) { multi::blas::dot(x, y, res); } else if constexpr(SX == 0 && SY == 1) { multi::blas::dot(x, multi::blas::C(y), res); } else { multi::blas::dot(multi::blas::C(x), y, res); } } catch(...) { rejected = true; }
+  if(!rejected) {
+    vf_assert(r_calls == 1, "exactly one BLAS call");
+    if(SX == 0 && SY == 0) {
+      vf_assert(r_which == 15 || r_which == 16, "dotu is realised by zgemv (or zdotu)");
+      if(r_which == 15) {
+        vf_assert(r_ta == 'N' && r_m == 1 && r_n == n && r_alpha == 1.0 && r_ai == 0.0 && r_beta == 0.0 && r_bi == 0.0, "1 x n matrix times vector, alpha = 1, beta = 0");
+        vf_assert(r_lda >= 1, "lda satisfies the BLAS precondition");
+        bool const direct = r_za == g_za + ox && r_lda == sx && r_zb == g_zb + oy && r_incx == sy;
+        bool const swapped = r_za == g_zb + oy && r_lda == sy && r_zb == g_za + ox && r_incx == sx;
+        vf_assert(direct || swapped || n <= 1, "the 1 x n matrix and the vector denote x and y (in either order)");
+        vf_assert(r_zc == &res, "the result is written to the caller's result");
+      }
+    } else {
+      vf_assert(r_which == 16, "a conjugated operand selects zdotc");
+      vf_assert(r_n == n, "n is the logical length");
+      if(SX == 1) vf_assert(r_za == g_za + ox && r_incx == sx && r_zb == g_zb + oy && r_incy == sy, "zdotc conjugates its FIRST argument: (x, incx) first");
+      else        vf_assert(r_za == g_zb + oy && r_incx == sy && r_zb == g_za + ox && r_incy == sx, "zdotc conjugates its FIRST argument: (y, incy) first");
+      vf_assert(res.real() == 7.0 && res.imag() == 8.0, "dot returns the routine's result");
+    }
+    vf_reach("zdot accepted");
+  }
+}
+VF_HARNESS(zdot_s00) { t_zdot<0, 0>(); }
+VF_HARNESS(zdot_s01) { t_zdot<0, 1>(); }
+VF_HARNESS(zdot_s10) { t_zdot<1, 0>(); }
+
+// trsm on complex<double> with conjugated views: b := alpha * a^-1 * b (left) or alpha * b * a^-1 (right) with a = a0 or J(a0), b = b0 or J(b0).
+// ztrsm overwrites what is STORED: with b = conj(b0) the stored result must be conj(alpha) * conj(a)^-1 * b0, i.e. the effective scalar is conj^SB(alpha)
+// and the effective triangular matrix is conj^(SA xor SB)(a0); flag 'C' is the only way to conjugate and it also transposes.
+template<int SA, int SB, class AA, class BB> static void ztrsm_call(multi::blas::side sd, multi::blas::filling fl, multi::blas::diagonal dg, std::complex<double> alpha, AA& a, BB& b) {   // operand types are dependent here, so the discarded branches are not instantiated
+  if constexpr(SA == 0 && SB == 0) { multi::blas::trsm(sd, fl, dg, alpha, a, b); }
+  else if constexpr(SA == 1 && SB == 0) { multi::blas::trsm(sd, fl, dg, alpha, multi::blas::J(a), b); }
+  else if constexpr(SA == 0 && SB == 1) { multi::blas::trsm(sd, fl, dg, alpha, a, multi::blas::J(b)); }
+  else { multi::blas::trsm(sd, fl, dg, alpha, multi::blas::J(a), multi::blas::J(b)); }
+}
+template<int LAYOUT, int SA, int SB> static void t_ztrsm() {
+  L m = vf_range(1, NB); L n = vf_range(1, NB); L left = vf_range(0, 1); L na = left ? m : n;
+  L as0, as1, bs0, bs1; mat_layout_fixed((LAYOUT >> 1) & 1, na, na, as0, as1); mat_layout_fixed(LAYOUT & 1, m, n, bs0, bs1);
+  L oa = vf_range(0, 3); L ob = vf_range(0, 3); L up = vf_range(0, 1); L unitdiag = vf_range(0, 1);
+  auto a = mkz(g_za + oa, as0, as1, na, na); auto b = mkz(g_zc + ob, bs0, bs1, m, n);
+  std::complex<double> const alpha{2.0, 0.5};
+  auto const sd = left ? multi::blas::side::left : multi::blas::side::right; auto const fl = up ? multi::blas::filling::upper : multi::blas::filling::lower;
+  auto const dg = unitdiag ? multi::blas::diagonal::unit : multi::blas::diagonal::non_unit;
+  bool rejected = false;
+  try { ztrsm_call<SA, SB>(sd, fl, dg, alpha, a, b);
+  } catch(...) { rejected = true; }
+  if(!rejected) {
+    vf_assert(r_calls == 1 && r_which == 17, "exactly one ztrsm call");
+    vf_assert((r_side == 'L' || r_side == 'R') && (r_ta == 'U' || r_ta == 'L') && (r_tb == 'N' || r_tb == 'T' || r_tb == 'C') && (r_diag == 'U' || r_diag == 'N'), "flags are valid");
+    vf_assert((r_diag == 'U') == (unitdiag != 0), "the diagonal flag is the user's");
+    vf_assert(r_m >= 1 && r_n >= 1 && r_ldb >= maxl(1, r_m) && r_lda >= maxl(1, r_side == 'L' ? r_m : r_n), "dimensions and leading dimensions satisfy the BLAS preconditions (else xerbla)");
+    vf_assert(r_zc == g_zc + ob && r_za == g_za + oa, "base pointers are the operands'");
+    vf_assert(r_alpha == 2.0 && r_ai == (SB ? -0.5 : 0.5), "the scalar is alpha, conjugated exactly when b is a conjugated view");
+    vf_assert((r_tb == 'C') == ((SA ^ SB) == 1), "the flag conjugates exactly when the effective triangular matrix is conjugated");
+    L i = vf_range(0, NB - 1); L j = vf_range(0, NB - 1); vf_assume(i < m && j < n);
+    L p = vf_range(0, NB - 1); L q = vf_range(0, NB - 1); vf_assume(p < na && q < na);
+    L i2 = vf_range(0, NB - 1); L j2 = vf_range(0, NB - 1); vf_assume(i2 < m && j2 < n);
+    L p2 = vf_range(0, NB - 1); L q2 = vf_range(0, NB - 1); vf_assume(p2 < na && q2 < na);
+    bool const NN = r_tb == 'N';
+    bool Df = r_m == m && r_n == n && (r_side == 'L') == (left != 0)
+      && i + j * r_ldb == i * bs0 + j * bs1
+      && (NN ? p + q * r_lda : q + p * r_lda) == p * as0 + q * as1
+      && (p == q || ((r_ta == 'U') == (NN ? p < q : q < p)) == (up ? p < q : p > q));
+    bool Tf = r_m == n && r_n == m && (r_side == 'L') == (left == 0)
+      && j2 + i2 * r_ldb == i2 * bs0 + j2 * bs1
+      && (NN ? q2 + p2 * r_lda : p2 + q2 * r_lda) == p2 * as0 + q2 * as1
+      && (p2 == q2 || ((r_ta == 'U') == (NN ? q2 < p2 : p2 < q2)) == (up ? p2 < q2 : p2 > q2));
+    vf_assert(Df || Tf, "the recorded ztrsm arguments denote b(i,j), a(p,q) and the user's triangle for every index tuple (direct or transposed form)");
+    vf_reach("ztrsm accepted");
+  }
+}
+#define ZT(LY, SA, SB) VF_HARNESS(ztrsm_s##SA##SB##_l##LY) { t_ztrsm<LY, SA, SB>(); }
+#define ZT4(SA, SB) ZT(0, SA, SB) ZT(1, SA, SB) ZT(2, SA, SB) ZT(3, SA, SB)
+ZT4(0, 0) ZT4(1, 0) ZT4(0, 1)   // trsm(J(a), J(b)) is ill-formed when instantiated (trsm.hpp names an undeclared `bbase`): no behaviour to check
